@@ -9,6 +9,7 @@ import (
 	"github.com/rs/cors"
 	"io"
 	"log"
+	"math"
 	"net/http"
 	"regexp"
 	"strconv"
@@ -190,6 +191,13 @@ func (server *Server) Start() {
 								status = "error"
 								resps <- response{key: key, value: result}
 								server.logger.Printf("parsing header failed: %v", err)
+								return
+							}
+
+							if !headerSectionsValid(header) {
+								status = "error"
+								resps <- response{key: key, value: result}
+								server.logger.Printf("header of %s declares a section beyond the addressable range", key.name)
 								return
 							}
 
@@ -434,6 +442,11 @@ func (server *Server) getTileAttempt(ctx context.Context, httpHeaders map[string
 		}
 
 		if entry.RunLength > 0 {
+			if entry.Offset+uint64(entry.Length) > header.TileDataLength {
+				// a corrupt entry must not make us read (and serve) bytes outside the tile data section;
+				// the cached header and directories may be stale, so retry once with a purge
+				return 500, httpHeaders, []byte("I/O Error"), rootValue.etag
+			}
 			status := ""
 			tracker := server.metrics.startBucketRequest(name, "tile")
 			defer func() { tracker.finish(ctx, status) }()
@@ -472,10 +485,30 @@ func (server *Server) getTileAttempt(ctx context.Context, httpHeaders map[string
 			}
 			return 200, httpHeaders, b, ""
 		}
+		if entry.Offset+uint64(entry.Length) > header.LeafDirectoryLength {
+			return 500, httpHeaders, []byte("I/O Error"), rootValue.etag
+		}
 		dirOffset = header.LeafDirectoryOffset + entry.Offset
 		dirLen = uint64(entry.Length)
 	}
 	return 204, httpHeaders, nil, ""
+}
+
+// headerSectionsValid reports whether every section of the header can be addressed with the
+// signed 64-bit offsets and lengths the bucket interface uses, without wrapping around.
+func headerSectionsValid(h HeaderV3) bool {
+	sections := [][2]uint64{
+		{h.RootOffset, h.RootLength},
+		{h.MetadataOffset, h.MetadataLength},
+		{h.LeafDirectoryOffset, h.LeafDirectoryLength},
+		{h.TileDataOffset, h.TileDataLength},
+	}
+	for _, s := range sections {
+		if s[0] > math.MaxInt64 || s[1] > math.MaxInt64 || s[0]+s[1] > math.MaxInt64 {
+			return false
+		}
+	}
+	return true
 }
 
 func isRefreshRequiredError(err error) bool {
